@@ -47,6 +47,8 @@ pub fn damage_content(ctx: &Ctx, addr: AddrRef, dmg: &CDamage) {
     // change); a foreign writer replaces the file
     let in_place = matches!(dmg, CDamage::FlipBit(_) | CDamage::Truncate(_) | CDamage::Extend(_) | CDamage::Empty | CDamage::Garbage { .. })
         && std::fs::symlink_metadata(&p).map(|m| m.file_type().is_file()).unwrap_or(false);
+    // (bit rot does not touch the modification time either)
+    let keep_mtime = if in_place { std::fs::metadata(&p).and_then(|m| m.modified()).ok() } else { None };
     let write = |b: &[u8]| {
         if !in_place {
             let _ = std::fs::remove_file(&p);
@@ -55,6 +57,11 @@ pub fn damage_content(ctx: &Ctx, addr: AddrRef, dmg: &CDamage) {
             std::fs::create_dir_all(d).unwrap();
         }
         std::fs::write(&p, b).unwrap();
+        if let Some(t) = keep_mtime {
+            if let Ok(f) = std::fs::OpenOptions::new().write(true).open(&p) {
+                let _ = f.set_modified(t);
+            }
+        }
     };
     match dmg {
         CDamage::Delete => {
@@ -253,5 +260,17 @@ pub fn damage_bucket(p: &Path, dmg: &BDamage) {
         Err(_) => return,
     };
     let new = damage_bucket_bytes(&cur, dmg);
-    std::fs::write(p, new).unwrap();
+    write_keeping_mtime(p, &new, new.len() == cur.len());
+}
+
+/// Writes the file; with `keep` its modification time stays what it was (bit rot, or a tool that
+/// restores timestamps: nothing about a file's age says its bytes are unchanged).
+pub fn write_keeping_mtime(p: &Path, bytes: &[u8], keep: bool) {
+    let t = if keep { std::fs::metadata(p).and_then(|m| m.modified()).ok() } else { None };
+    std::fs::write(p, bytes).unwrap();
+    if let Some(t) = t {
+        if let Ok(f) = std::fs::OpenOptions::new().write(true).open(p) {
+            let _ = f.set_modified(t);
+        }
+    }
 }
